@@ -94,30 +94,78 @@ type vEnd struct {
 	closed    chan struct{}
 	closeOnce sync.Once
 	wrAfterCl atomic.Int32
+	selfClose atomic.Bool // Close() was called by the endpoint that owns this conn
+	closedAt  atomic.Int64
 	failWrite atomic.Bool
+	dlMu      sync.Mutex
+	dlCh      chan struct{}
+	dlTimer   *time.Timer
 }
 
 func newVLink(fate func(int, int, []byte, time.Duration) vFate) *vLink {
 	l := &vLink{start: time.Now(), fate: fate}
 	for i := range l.ends {
-		l.ends[i] = &vEnd{link: l, side: i, inbox: make(chan []byte, 4096), closed: make(chan struct{})}
+		l.ends[i] = &vEnd{link: l, side: i, inbox: make(chan []byte, 4096), closed: make(chan struct{}), dlCh: make(chan struct{})}
 	}
 	return l
 }
 
 func (e *vEnd) Read(b []byte) (int, error) {
+	e.dlMu.Lock()
+	dl := e.dlCh
+	e.dlMu.Unlock()
 	select {
 	case p := <-e.inbox:
 		return copy(b, p), nil
 	case <-e.closed:
 		return 0, io.EOF
+	case <-dl:
+		return 0, os.ErrDeadlineExceeded
 	}
+}
+
+// SetReadDeadline: Abort() relies on it to unblock the read loop.
+func (e *vEnd) SetReadDeadline(t time.Time) error {
+	e.dlMu.Lock()
+	defer e.dlMu.Unlock()
+	if e.dlTimer != nil {
+		e.dlTimer.Stop()
+		e.dlTimer = nil
+	}
+	select {
+	case <-e.dlCh:
+		e.dlCh = make(chan struct{})
+	default:
+	}
+	if t.IsZero() {
+		return nil
+	}
+	ch := e.dlCh
+	fire := func() {
+		e.dlMu.Lock()
+		defer e.dlMu.Unlock()
+		select {
+		case <-ch:
+		default:
+			close(ch)
+		}
+	}
+	if d := time.Until(t); d <= 0 {
+		close(ch)
+	} else {
+		e.dlTimer = time.AfterFunc(d, fire)
+	}
+	return nil
 }
 
 func (e *vEnd) Write(b []byte) (int, error) {
 	select {
 	case <-e.closed:
-		e.wrAfterCl.Add(1)
+		// the endpoint wrote to a connection it had closed itself at an earlier (virtual) instant; a write
+		// racing with the close at the same instant just fails and is tolerated
+		if e.selfClose.Load() && time.Since(e.link.start).Nanoseconds() > e.closedAt.Load() {
+			e.wrAfterCl.Add(1)
+		}
 		return 0, io.ErrClosedPipe
 	default:
 	}
@@ -171,6 +219,16 @@ func (e *vEnd) deliver(pkt []byte, from, idx int) {
 
 // Close closes this end; like a DTLS close_notify the other end's Read fails shortly after.
 func (e *vEnd) Close() error {
+	if !e.selfClose.Load() {
+		e.closedAt.Store(time.Since(e.link.start).Nanoseconds())
+	}
+	e.selfClose.Store(true)
+	e.fail()
+	return nil
+}
+
+// fail makes the transport fail without the endpoint having asked for it (harness use).
+func (e *vEnd) fail() {
 	e.closeOnce.Do(func() {
 		close(e.closed)
 		peer := e.link.ends[1-e.side]
@@ -178,12 +236,10 @@ func (e *vEnd) Close() error {
 			peer.closeOnce.Do(func() { close(peer.closed) })
 		})
 	})
-	return nil
 }
 func (e *vEnd) LocalAddr() net.Addr                { return nil }
 func (e *vEnd) RemoteAddr() net.Addr               { return nil }
 func (e *vEnd) SetDeadline(t time.Time) error      { return nil }
-func (e *vEnd) SetReadDeadline(t time.Time) error  { return nil }
 func (e *vEnd) SetWriteDeadline(t time.Time) error { return nil }
 
 // ---- packet summary for the log ---------------------------------------------------------------
@@ -515,6 +571,10 @@ type vRun struct {
 	link *vLink
 	as   [2]*Association
 	stale []vStale
+	// teardown mode: closed when the k-th wire event has been logged
+	trigAt  int
+	trigCh  chan struct{}
+	nEvents int
 }
 
 func (r *vRun) logf(format string, a ...any) {
@@ -618,7 +678,7 @@ func (r *vRun) connect(timeout time.Duration) bool {
 			r.logf("e2e connect %d -> timeout %d", side, time.Since(r.link.start).Milliseconds())
 			ok = false
 			// unblock the constructor so the goroutine can finish
-			r.link.ends[side].Close()
+			r.link.ends[side].fail()
 			x := <-chs[side]
 			r.as[side] = x.a
 		}
@@ -679,6 +739,12 @@ func (r *vRun) wireLog() func(int, int, time.Duration, []byte, vFate) {
 		} else if f.delays[0] > 0 {
 			fs = "delay"
 		}
+		r.mu.Lock()
+		r.nEvents++
+		if r.trigCh != nil && r.nEvents == r.trigAt {
+			close(r.trigCh)
+		}
+		r.mu.Unlock()
 		sum := vPacketSummary(pkt)
 		r.logf("e2e tx %d %d %d %d %s -> %s", from, idx, now.Microseconds(), len(pkt), fs, sum)
 		if r.sc.mode == "handshake" {
@@ -699,7 +765,7 @@ func (r *vRun) teardown() {
 		if a := r.as[side]; a != nil {
 			_ = a.Close()
 		}
-		r.link.ends[side].Close()
+		r.link.ends[side].fail()
 	}
 	r.link.stopped.Store(true)
 	r.link.wg.Wait()
@@ -842,7 +908,7 @@ func (r *vRun) runTransfer() {
 		r.runShutdown(streams)
 		for side := 0; side < 2; side++ {
 			_ = r.as[side].Close()
-			r.link.ends[side].Close()
+			r.link.ends[side].fail()
 		}
 		rwg.Wait()
 		return
@@ -856,7 +922,7 @@ func (r *vRun) runTransfer() {
 	r.logEnd()
 	for side := 0; side < 2; side++ {
 		_ = r.as[side].Close()
-		r.link.ends[side].Close()
+		r.link.ends[side].fail()
 	}
 	rwg.Wait()
 }
@@ -942,6 +1008,8 @@ func vRunScenario(t *testing.T, l *vlog, sc *vScenario) {
 			run.runHandshake()
 		case "reset":
 			run.runReset()
+		case "teardown":
+			run.runTeardown()
 		default:
 			run.runTransfer()
 		}
